@@ -241,12 +241,12 @@ def oracle(ctx):
     # tal:repeat renders the items its iterable had when the loop was entered: a body that grows or shrinks the sequence changes neither
     # the number of repetitions nor what repeat.x reports (length, end, the separators between repetitions)
     from chameleon import PageTemplate
-    MUT = [('<li tal:repeat="x xs">${x}${xs.append(\'b\') or \'\'}:${repeat.x.length}:${repeat.x.end}</li>', lambda: {'xs': ['a']}, '<li>a:1:1</li>'),
+    MUT = [('<li tal:repeat="x xs">${x}${(xs.append(\'b\') if 4 > len(xs) else None) or \'\'}:${repeat.x.length}:${repeat.x.end}</li>', lambda: {'xs': ['a']}, '<li>a:1:1</li>'),
            ('<li tal:repeat="x xs">${x}${xs.pop() and \'\'}</li>', lambda: {'xs': [1, 2, 3, 4]}, '<li>1</li>\n<li>2</li>\n<li>3</li>\n<li>4</li>'),
            ('<li tal:repeat="x xs">${x}/${repeat.x.number}${xs.remove(x) or \'\'}</li>', lambda: {'xs': ['p', 'q', 'r']},
             '<li>p/1</li>\n<li>q/2</li>\n<li>r/3</li>'),
            ('<tal:r repeat="k d">${k}${d.pop(k) and \'\'}</tal:r>', lambda: {'d': {'a': 1, 'b': 2}}, 'ab'),
-           ('<li tal:repeat="x xs">${x}${xs.insert(0, \'z\') or \'\'}</li>', lambda: {'xs': ['m', 'n']}, '<li>m</li>\n<li>n</li>')]
+           ('<li tal:repeat="x xs">${x}${(xs.insert(0, \'z\') if 5 > len(xs) else None) or \'\'}</li>', lambda: {'xs': ['m', 'n']}, '<li>m</li>\n<li>n</li>')]
     for src, mk, want in MUT:
         ctx.count('evaluations')
         try:
